@@ -78,7 +78,7 @@ var _ backoff.BackOff
 //@    s.messageLayer.Body == c.Operation().Body && s.messageLayer.Enterprise == c.Operation().Enterprise
 //@ ensures [C18.retry] metric(commandRetries) == old(metric(commandRetries))+ite(old(firstAttempt), 0, 1)
 //@ ensures [keep.metrics] metricsOnly(commandRetries, commandResponses)
-//@ at CounterVec).WithLabelValues assert [C18.response-counted] sends() == old(sends())+1 && s.v2SessionLayer.ID == s.LocalID && s.messageLayer.Function == c.Operation().Function+1 && s.messageLayer.Command == c.Operation().Command &&
+//@ at CounterVec).WithLabelValues assert [C04+C11+C18.response-counted] sends() == old(sends())+1 && s.v2SessionLayer.ID == s.LocalID && s.messageLayer.Function == c.Operation().Function+1 && s.messageLayer.Command == c.Operation().Command &&
 //@    s.messageLayer.Body == c.Operation().Body && s.messageLayer.Enterprise == c.Operation().Enterprise // only a reply of this session to the command that was sent is counted as a response
 
 // ---- v2sessionless.go: the retry closures of session-less commands and RMCP+ payloads
@@ -96,7 +96,7 @@ var _ backoff.BackOff
 //@    s.messageLayer.Body == c.Operation().Body && s.messageLayer.Enterprise == c.Operation().Enterprise
 //@ ensures [C18.retry] metric(commandRetries) == old(metric(commandRetries))+ite(old(firstAttempt), 0, 1)
 //@ ensures [keep.metrics] metricsOnly(commandRetries, commandResponses)
-//@ at CounterVec).WithLabelValues assert [C18.response-counted] sends() == old(sends())+1 && s.messageLayer.Function == c.Operation().Function+1 && s.messageLayer.Command == c.Operation().Command &&
+//@ at CounterVec).WithLabelValues assert [C11+C18.response-counted] sends() == old(sends())+1 && s.messageLayer.Function == c.Operation().Function+1 && s.messageLayer.Command == c.Operation().Command &&
 //@    s.messageLayer.Body == c.Operation().Body && s.messageLayer.Enterprise == c.Operation().Enterprise // only a reply to the command that was sent is counted as a response
 
 //@ func (*V2Sessionless).buildAndSendPayload$1
